@@ -9,17 +9,19 @@ Set Default Timeout 60.
 Strategy 1000 [parallels_new parallels_run next_parallel parallels_next bnext_all bprevious_all].
 
 (* a scanline of row y whose x range lies within +-2^29 *)
-Definition sl_fit (y : Z) (s : scanline) : Prop := xin (- jbig) jbig s /\ sl_y s = y.
+Definition sl_fit_in (lo hi y : Z) (s : scanline) : Prop := xin lo hi s /\ sl_y s = y.
+Notation sl_fit := (sl_fit_in (- jbig) jbig).
 
 Lemma join_big_xin j : jpt_big (ec_left (first_edge_end j)) -> jpt_big (ec_right (first_edge_end j)) ->
   jpt_big (ec_left (second_edge_start j)) -> jpt_big (ec_right (second_edge_start j)) -> join_xin (- jbig) jbig j.
 Proof. intros [A _] [B _] [C _] [D _]. unfold join_xin. tauto. Qed.
 
 (* the three joins of the clockwise triangle (a, b, c), all corners within +-2^29 *)
-Definition tri_joins_big (ct : tri3) (w : Z) (so : stroke_offset) : Prop :=
+Definition tri_joins_in (lo hi : Z) (ct : tri3) (w : Z) (so : stroke_offset) : Prop :=
   let '(a, b, c) := ct in
   forall j, (lj_from_points c a b w so = Some j \/ lj_from_points a b c w so = Some j \/ lj_from_points b c a w so = Some j) ->
-            join_xin (- jbig) jbig j.
+            join_xin lo hi j.
+Notation tri_joins_big := (tri_joins_in (- jbig) jbig).
 
 Lemma tri_joins_big_of_segs ct w so segs : tri_segs ct w so = Some segs -> Forall seg_ok segs -> tri_joins_big ct w so.
 Proof.
@@ -31,11 +33,11 @@ Proof.
   inversion F as [|? ? S0 F1]; subst. inversion F1 as [|? ? S1 F2]; subst. inversion F2 as [|? ? S2 _]; subst.
   destruct S0 as [A1 [A2 [A3 A4]]], S1 as [B1 [B2 [B3 B4]]], S2 as [C1 [C2 [C3 C4]]].
   unfold ts_edges in *; cbn [fst snd l_start l_end ts_start_join ts_end_join] in *.
-  unfold tri_joins_big. rewrite E0, E1, E2. intros j [E|[E|E]]; injection E as <-; apply join_big_xin; assumption.
+  unfold tri_joins_in. rewrite E0, E1, E2. intros j [E|[E|E]]; injection E as <-; apply join_big_xin; assumption.
 Qed.
 
-Lemma jt_edge_scanline_fit ct w so idx y s : tri_joins_big ct w so ->
-  jt_edge_scanline ct w so idx y = Some s -> sl_fit y s.
+Lemma jt_edge_scanline_fit_in lo hi ct w so idx y s : tri_joins_in lo hi ct w so ->
+  jt_edge_scanline ct w so idx y = Some s -> sl_fit_in lo hi y s.
 Proof.
   destruct ct as [[a b] c]. intros JB H. unfold jt_edge_scanline in H.
   destruct (lj_from_points (vtx (a, b, c) idx) (vtx (a, b, c) (idx + 1)) (vtx (a, b, c) (idx + 2)) w so) as [sj|] eqn:E1; [|discriminate].
@@ -51,43 +53,47 @@ Proof.
     destruct (Nat.modulo idx 3) as [|[|[|k]]]; cbn in E1, E2; try lia; tauto.
 Qed.
 
-Lemma jt_edge_step_fit y lr sc : sl_fit y (fst lr) -> sl_fit y (snd lr) -> sl_fit y sc ->
-  sl_fit y (fst (jt_edge_step lr sc)) /\ sl_fit y (snd (jt_edge_step lr sc)).
+Lemma jt_edge_step_fit_in lo hi y lr sc : sl_fit_in lo hi y (fst lr) -> sl_fit_in lo hi y (snd lr) -> sl_fit_in lo hi y sc ->
+  sl_fit_in lo hi y (fst (jt_edge_step lr sc)) /\ sl_fit_in lo hi y (snd (jt_edge_step lr sc)).
 Proof.
   destruct lr as [l r]. cbn [fst snd]. intros [Xl Yl] [Xr Yr] [Xs Ys]. unfold jt_edge_step.
   destruct (negb (sl_is_empty l)); [|split; split; assumption].
-  destruct (sl_try_extend_xin _ _ l sc Xl Xs) as [A B].
+  destruct (sl_try_extend_xin lo hi l sc Xl Xs) as [A B].
   destruct (sl_try_extend l sc) as [e a]. cbn [snd] in A, B. destruct e; cbv beta iota.
   - cbn [fst snd]. split; split; try assumption; lia.
   - destruct (negb (sl_is_empty r)); [|cbn [fst snd]; split; split; assumption].
-    destruct (sl_try_extend_xin _ _ r sc Xr Xs) as [C D]. cbn [fst snd]. split; split; try assumption; lia.
+    destruct (sl_try_extend_xin lo hi r sc Xr Xs) as [C D]. cbn [fst snd]. split; split; try assumption; lia.
 Qed.
 
-Lemma sl_fit_new_empty y : sl_fit y (sl_new_empty y).
+Lemma sl_fit_new_empty_in lo hi y : sl_fit_in lo hi y (sl_new_empty y).
 Proof. split; [apply xin_new_empty | reflexivity]. Qed.
 
-Lemma jt_edge_intersections_fit ct w so y es : tri_joins_big ct w so ->
-  jt_edge_intersections ct w so y = Some es -> Forall (fun s => sl_fit y s /\ sl_is_empty s = false) es.
+Lemma jt_edge_intersections_fit_in lo hi ct w so y es : tri_joins_in lo hi ct w so ->
+  jt_edge_intersections ct w so y = Some es -> Forall (fun s => sl_fit_in lo hi y s /\ sl_is_empty s = false) es.
 Proof.
   intros JB H. unfold jt_edge_intersections in H. destruct (w =? 0); [injection H as <-; constructor|].
   destruct (jt_edge_scanline ct w so 0 y) as [s0|] eqn:E0; [|discriminate].
   destruct (jt_edge_scanline ct w so 1 y) as [s1|] eqn:E1; [|discriminate].
   destruct (jt_edge_scanline ct w so 2 y) as [s2|] eqn:E2; [|discriminate].
-  pose proof (jt_edge_scanline_fit _ _ _ _ _ _ JB E0) as F0. pose proof (jt_edge_scanline_fit _ _ _ _ _ _ JB E1) as F1.
-  pose proof (jt_edge_scanline_fit _ _ _ _ _ _ JB E2) as F2. pose proof (sl_fit_new_empty y) as FE.
-  destruct (jt_edge_step_fit y (sl_new_empty y, sl_new_empty y) s0 FE FE F0) as [A0 B0].
-  destruct (jt_edge_step_fit y _ s1 A0 B0 F1) as [A1 B1]. destruct (jt_edge_step_fit y _ s2 A1 B1 F2) as [A2 B2].
+  pose proof (jt_edge_scanline_fit_in lo hi _ _ _ _ _ _ JB E0) as F0. pose proof (jt_edge_scanline_fit_in lo hi _ _ _ _ _ _ JB E1) as F1.
+  pose proof (jt_edge_scanline_fit_in lo hi _ _ _ _ _ _ JB E2) as F2. pose proof (sl_fit_new_empty_in lo hi y) as FE.
+  destruct (jt_edge_step_fit_in lo hi y (sl_new_empty y, sl_new_empty y) s0 FE FE F0) as [A0 B0].
+  destruct (jt_edge_step_fit_in lo hi y _ s1 A0 B0 F1) as [A1 B1]. destruct (jt_edge_step_fit_in lo hi y _ s2 A1 B1 F2) as [A2 B2].
   destruct (jt_edge_step (jt_edge_step (jt_edge_step (sl_new_empty y, sl_new_empty y) s0) s1) s2) as [l r]. cbn [fst snd] in A2, B2.
-  destruct A2 as [Xl Yl], B2 as [Xr Yr]. destruct (sl_try_extend_xin _ _ l r Xl Xr) as [C D].
+  destruct A2 as [Xl Yl], B2 as [Xr Yr]. destruct (sl_try_extend_xin lo hi l r Xl Xr) as [C D].
   destruct (sl_try_extend l r) as [e a]. cbn [snd] in C, D.
-  assert (G : forall u v, sl_fit y u -> sl_fit y v ->
-            Forall (fun s => sl_fit y s /\ sl_is_empty s = false) (filter (fun s => negb (sl_is_empty s)) [u; v])).
+  assert (G : forall u v, sl_fit_in lo hi y u -> sl_fit_in lo hi y v ->
+            Forall (fun s => sl_fit_in lo hi y s /\ sl_is_empty s = false) (filter (fun s => negb (sl_is_empty s)) [u; v])).
   { intros u v Fu Fv. cbn [filter]. destruct (sl_is_empty u) eqn:Eu; destruct (sl_is_empty v) eqn:Ev; cbn [negb];
       repeat (first [apply Forall_nil | apply Forall_cons; [split; assumption|]]). }
   destruct e; injection H as <-.
   - assert (Ya : sl_y a = y) by lia. exact (G a (sl_new_empty y) (conj C Ya) FE).
   - exact (G l r (conj Xl Yl) (conj Xr Yr)).
 Qed.
+
+(* the +-2^29 instances used for C01 *)
+Definition jt_edge_intersections_fit := jt_edge_intersections_fit_in (- jbig) jbig.
+Definition sl_fit_new_empty := sl_fit_new_empty_in (- jbig) jbig.
 
 Definition tri_big (t : tri3) : Prop := jpt_big (fst (fst t)) /\ jpt_big (snd (fst t)) /\ jpt_big (snd t).
 
@@ -264,4 +270,65 @@ Lemma jt_pixels_draw_range V t w al fill rs : range_ok V w -> tri_within V t ->
 Proof.
   intros R H HR FU. destruct (tri_segs_range V w (so_of_alignment al) t R H) as [TB [segs [TS OK]]].
   exact (jt_pixels_draw t w al fill segs rs TB TS OK HR FU).
+Qed.
+
+(* ---- C02 for the stroke of a triangle (Center / Outside alignment, width >= 2) ------------------------------------------- *)
+Lemma tri_joins_in_of_segs lo hi ct w so segs : tri_segs ct w so = Some segs ->
+  (forall t p, In t segs -> seg_corner t p -> lo <= px p <= hi) -> tri_joins_in lo hi ct w so.
+Proof.
+  destruct ct as [[a b] c]. cbn [tri_segs]. rewrite closed_iter_3.
+  destruct (lj_from_points c a b w so) as [j0|] eqn:E0; [|discriminate].
+  destruct (lj_from_points a b c w so) as [j1|] eqn:E1; [|discriminate].
+  destruct (lj_from_points b c a w so) as [j2|] eqn:E2; [|discriminate].
+  intros H HP. injection H as <-.
+  destruct (seg_corner_ses (TS j0 j1)) as [A1 [A2 [A3 A4]]]. destruct (seg_corner_ses (TS j1 j2)) as [B1 [B2 [B3 B4]]].
+  destruct (seg_corner_ses (TS j2 j0)) as [C1 [C2 [C3 C4]]]. cbn [ts_start_join ts_end_join] in *.
+  assert (I0 : In (TS j0 j1) [TS j0 j1; TS j1 j2; TS j2 j0]) by (left; reflexivity).
+  assert (I1 : In (TS j1 j2) [TS j0 j1; TS j1 j2; TS j2 j0]) by (right; left; reflexivity).
+  assert (I2 : In (TS j2 j0) [TS j0 j1; TS j1 j2; TS j2 j0]) by (right; right; left; reflexivity).
+  unfold tri_joins_in. rewrite E0, E1, E2. intros j [E|[E|E]]; injection E as <-; unfold join_xin.
+  - pose proof (HP _ _ I2 C3). pose proof (HP _ _ I2 C4). pose proof (HP _ _ I0 A1). pose proof (HP _ _ I0 A2). tauto.
+  - pose proof (HP _ _ I0 A3). pose proof (HP _ _ I0 A4). pose proof (HP _ _ I1 B1). pose proof (HP _ _ I1 B2). tauto.
+  - pose proof (HP _ _ I1 B3). pose proof (HP _ _ I1 B4). pose proof (HP _ _ I2 C1). pose proof (HP _ _ I2 C2). tauto.
+Qed.
+
+Lemma tri_stroke_in_bbox t w al hf segs rs row s p : al <> Inside -> 2 <= w ->
+  tri_segs (jt_sorted_clockwise t) w (so_of_alignment al) = Some segs ->
+  existsb is_skeleton segs = false -> Forall seg_ok segs ->
+  jt_rows t w al hf = Some rs -> In row rs -> In (s, PStroke) row -> In p (sl_points s) ->
+  contains (segments_bounding_box segs) p = true.
+Proof.
+  intros NI W2 TS NS OK H Ir Is Ip. unfold jt_rows in H. rewrite jt_styled_bounding_box_unfold in H.
+  assert (BB : (match al with
+                | Inside => Some (jt_bounding_box t)
+                | _ => if w <? 2 then Some (jt_bounding_box t)
+                       else option_map segments_bounding_box (tri_segs (jt_sorted_clockwise t) w (so_of_alignment al))
+                end) = Some (segments_bounding_box segs)).
+  { destruct al; [congruence | |]; (destruct (w <? 2) eqn:E; [lia|]); rewrite TS; reflexivity. }
+  rewrite BB in H. clear BB.
+  destruct (jt_is_collapsed (jt_sorted_clockwise t) w (so_of_alignment al)) as [coll|]; [|discriminate].
+  assert (NC : (0 <? w) && coll && so_eqb (so_of_alignment al) SORight = false).
+  { destruct al; [congruence | |]; cbn [so_of_alignment so_eqb]; rewrite andb_false_r; reflexivity. }
+  rewrite NC in H.
+  destruct (tri_segs_length _ _ _ _ TS) as [s0 [rest ES]]. subst segs.
+  set (mM := fold_left bb_step (s0 :: rest) (P i32_max i32_max, P i32_min i32_min)).
+  assert (HP : forall t0 q, In t0 (s0 :: rest) -> seg_corner t0 q -> px (fst mM) <= px q <= px (snd mM)).
+  { intros t0 q It C. destruct (bb_fold_bounds (s0 :: rest) (P i32_max i32_max, P i32_min i32_min) t0 It) as [[A1 _] [B1 _]].
+    assert (SK : is_skeleton t0 = false).
+    { destruct (is_skeleton t0) eqn:E; [|reflexivity].
+      assert (existsb is_skeleton (s0 :: rest) = true) by (apply existsb_exists; exists t0; split; assumption). congruence. }
+    destruct (ebb_corners_cover t0 q (or_introl (conj SK C))) as [[C1 _] [D1 _]]. fold mM in A1, B1. lia. }
+  pose proof (tri_joins_in_of_segs _ _ _ _ _ _ TS HP) as JB.
+  destruct (sbb_fold_form s0 rest OK) as [Bm BM]. fold mM in Bm, BM.
+  rewrite segments_bounding_box_fold in H. fold mM in H. rewrite (rows_with_corners_big _ _ Bm BM) in H.
+  destruct (all_some_rows _ _ _ H row Ir) as [y [Iy Ey]]. apply In_range in Iy.
+  unfold jt_row in Ey. destruct (jt_edge_intersections (jt_sorted_clockwise t) w (so_of_alignment al) y) as [es|] eqn:EE; [|discriminate].
+  injection Ey as <-. apply in_app_or in Is as [Is|Is].
+  - destruct (sl_is_empty _) in Is; [destruct Is | destruct Is as [Is|[]]; discriminate].
+  - apply in_map_iff in Is as [s' [Es Is']]. injection Es as ->.
+    pose proof (jt_edge_intersections_fit_in _ _ _ _ _ _ _ JB EE) as F. rewrite Forall_forall in F.
+    destruct (F s Is') as [[X Y] _]. destruct (sl_points_xin _ _ s p X Ip) as [Px Py].
+    rewrite segments_bounding_box_fold. fold mM.
+    apply contains_spec. unfold with_corners, size_from_bounding_box; cbn [tl sz sw sh px py].
+    destruct Bm as [_ Bm], BM as [_ BM]. lia.
 Qed.
